@@ -15,7 +15,13 @@ EXOTIC = [('T8', 'N', '-', '-'), ('N', 'T16', '-', '-'), ('T0', 'T28', '-', '8')
           ('T8', 'T28', '0', '8'), ('Tx', 'Tx', '-', '-'), ('F8', 'Ti', '-', '-'), ('Fi', 'N', '0', '-'), ('Fi', 'F28', '1', '-'),
           ('Fn', 'F16', '1', '-'), ('Fn', 'N', '0', '8'), ('F8', 'Fn', '1', '-'), ('N', 'Fn', '0', '-'), ('N', 'Fn', '1', '8'),
           ('F-8', 'F16', '0', '-'), ('F-8', 'F16', '1', '-'), ('F8', 'F8', '1', '-'), ('F20', 'F16', '0', '8'), ('F0', 'F0', '0', '-'),
-          ('F1', 'F27', '0', 'x'), ('N', 'F-4', '0', '20'), ('T20', 'N', '0', '16')]
+          ('F1', 'F27', '0', 'x'), ('N', 'F-4', '0', '20'), ('T20', 'N', '0', '16'),
+          # argument forms: Python int, numpy.float64 / float32 / int64; 0 in every spelling; mixed representations with `absolute` omitted
+          ('J8', 'J24', '0', '8'), ('J8', 'D28', '1', '-'), ('D8', 'D20', '0', '-'), ('E20', 'E28', '0', '8'), ('K8', 'K24', '1', '-'),
+          ('J0', 'N', '1', '-'), ('K0', 'F28', '1', '-'), ('D0', 'N', '1', '8'), ('E0', 'N', '0', '-'), ('J0', 'J0', '0', '8'), ('T0', 'N', '-', '-'),
+          ('F8', 'T28', '-', '-'), ('J8', 'T28', '-', '-'), ('Tx', 'F28', '-', '-'), ('Tx', 'J24', '-', '8'), ('N', 'T28', '-', '8'), ('F0', 'T28', '-', '-'),
+          ('D8', 'Tx', '-', '-'), ('T8', 'F28', '-', '-'), ('T8', 'Tx', '-', '-'), ('F0', 'F0', '0', '20'), ('F0', 'N', '0', '20'), ('N', 'F0', '0', '20')]
+BASES = [8 * 2 ** 24, 8 * 10 ** 9, 8 * 13 * 10 ** 8]          # 2^24 s, 1e9 s, 1.3e9 s on the 1/8 s grid
 
 
 def seqs(maxlen, times, untimed=('u',), single_from=99):
@@ -63,9 +69,10 @@ def rand_bound(r, lo=True):
     if x < 0.25: return 'Fi'
     if x < 0.28: return 'Fn'
     if x < 0.31: return 'Tx'
-    if x < 0.36: return 'F0'
+    if x < 0.36: return r.choice(['F0', 'F0', 'J0', 'D0', 'K0', 'T0'])
     v = r.randint(-4, 44) if x < 0.9 else r.choice([0, 8, 16])
-    return ('T' if r.random() < 0.15 and v >= 0 else 'F') + str(v)
+    y = r.random()
+    return ('T' if y < 0.15 and v >= 0 else r.choice('JDEK') if y < 0.3 else 'F') + str(v)
 
 
 def rand_args(r):
@@ -124,6 +131,17 @@ def first_diff(ops, impl_pub, spec):
 def signature(line, impl_pub, spec):
     w = line.split()
     cmd = w[0]
+    if cmd == 'H':
+        a, b = impl_pub.split(','), spec.split(',')
+        steps = w[ops_field(line)].split(',')
+        i = next((i for i, (x, y) in enumerate(zip(a, b)) if x != y), None)
+        if i is None or len(a) != len(b):
+            return {'op': 'history', 'class': 'error' if impl_pub.startswith('!') else 'length'}
+        st = steps[i]
+        kinds = {'m': 'is_in_range', 'x': 'intersect', 'a': 'make_absolute', 'b': 'make_absolute-copy', 'c': 'copy', 'd': 'deepcopy', 'q': 'parse-object'}
+        earlier = sorted(set(kinds[t[0]] for t in steps[:i] if t[0] != 'm'))
+        return {'op': 'history', 'step': kinds[st[0]], 'impl': a[i] if st[0] != 'm' else ('accept' if a[i] == '1' else 'reject'),
+                'msg': ('timed' if st.split('.')[1][0] in 'pd' else 'untimed') if st[0] == 'm' else None, 'after': '+'.join(earlier)}
     k = ops_field(line)
     ops = [] if w[k] == '-' else w[k].split(',')
     sig = {'op': {'R': 'is_in_range', 'I': 'intersect', 'A': 'make_absolute', 'P': 'parse', 'Q': 'parse-tuple', 'T': 'parse-object'}.get(cmd, cmd)}
@@ -163,7 +181,29 @@ def _is_abs(a):
 
 def ops_field(line):
     """index of the OPS token in a protocol line"""
-    return {'R': 5, 'I': 10, 'A': 7, 'P': 3, 'Q': 5, 'PS': 5, 'T': 6}[line.split()[0]]
+    w = line.split()
+    if w[0] == 'H':
+        return 2 + 4 * int(w[1])
+    return {'R': 5, 'I': 10, 'A': 7, 'P': 3, 'Q': 5, 'PS': 5, 'T': 6}[w[0]]
+
+
+def started_expected(opstok, spec_bools):
+    """in_range_started() after the ops: has a message of the current pass been accepted (per the SPEC verdicts)"""
+    ops = [] if opstok == '-' else opstok.split(',')
+    vs = list(spec_bools.replace('-', ''))
+    cur = False
+    for t in ops:
+        if t == 'r':
+            cur = False
+        else:
+            v = vs.pop(0)
+            cur = cur or v == '1'
+    return '1' if cur else '0'
+
+
+def verd(out):
+    """the verdict part of an IMPL / MODEL output line (without getters and private state)"""
+    return out.split('|')[0].split(';')[0]
 
 
 def shrink(model, line, spec_line, sig):
@@ -184,7 +224,7 @@ def shrink(model, line, spec_line, sig):
         impl = vf.run_lines(HARNESS, [c[0] for c in cands], env=vf.IMPL_ENV)[1]
         spec = vf.run_lines(model, ['S ' + (c[1] or c[0]) for c in cands])[1]
         for (l2, s2), i, s in zip(cands, impl, spec):
-            ip = i.split('|')[0]
+            ip = verd(i)
             if s not in ('X', 'U') and ip != s and signature(l2, ip, s) == sig:
                 line, spec_line = l2, s2
                 break
@@ -228,9 +268,12 @@ def run(ctx):
     all_seqs = seqs(L, TIMES, untimed=('u', 's'), single_from=5)
     short = [s for s in all_seqs if len(s) <= 3]
     cfgs = [(a, b, c, d) for a in STARTS for b in ENDS for c in '01' for d in ('-', '8')]
+    FLAGS = ['-', '-', '-', 't', '-', 'p', '-', 'i', '-', 'n', '-', 'f']     # options / argument forms that must not matter
+    nexh = 0
     for cfg in cfgs:
         for s in all_seqs:
-            B.add('R %s %s %s %s %s -' % (cfg + (opstr(s),)), kind='exh')
+            nexh += 1
+            B.add('R %s %s %s %s %s %s' % (cfg + (opstr(s), FLAGS[nexh % len(FLAGS)])), kind='exh')
     for cfg in EXOTIC:
         for s in short:
             B.add('R %s %s %s %s %s -' % (cfg + (opstr(s),)), kind='exotic')
@@ -247,7 +290,18 @@ def run(ctx):
         cfg = rand_args(r)
         n = r.randint(6, 30)
         B.add('R %s %s %s %s %s %s' % (cfg + (opstr(rand_ops(r, n, restart_p=r.choice([0, 0.05, 0.15]))),
-                                              r.choice(['-', '-', 't', 'f', 'tf']))), kind='random')
+                                              r.choice(['-', '-', 't', 'f', 'tf', 'i', 'n', 'o', 'p', 'to', 'tp']))), kind='random')
+    # large P1 times (2^24 s, 1e9 s, 1.3e9 s) with fractional bounds: absolute bounds near the base, relative bounds with t0 = base / unset
+    bseqs = seqs(4 if ctx.thorough else 3, [0, 8, 16, 20, 28], untimed=('u',))
+    for base in BASES:
+        bc = [('N' if a is None else 'F%d' % (base + a), 'N' if b is None else 'F%d' % (base + b), '1', d)
+              for a in (None, 1, 8, 20) for b in (None, 16, 27, 28) for d in ('-',)]
+        bc += [('N' if a is None else 'F%d' % a, 'N' if b is None else 'F%d' % b, '0', d)
+               for a in (None, 0, 1, 8, 20) for b in (None, 16, 27, 28) for d in ('-', str(base), str(base + 8))]
+        bc += [('T%d' % (base + 8), 'T%d' % (base + 27), '-', '-'), ('D%d' % (base + 1), 'N', '1', '-'), ('J%d' % (base + 8), 'J%d' % (base + 24), '1', '-')]
+        for cfg in bc:
+            for sq in bseqs:
+                B.add('R %s %s %s %s %s -' % (cfg + (opstr([t if t[0] != 'p' else 'p%d' % (base + int(t[1:])) for t in sq]),)), kind='large-times')
 
     # ---- intersect: all pairs of grid ranges ----------------------------------------------------------
     iranges = [(a, b, c, d) for a in STARTS for b in ('N', 'F16', 'F28') for c in '01' for d in ('-', '8')]
@@ -302,16 +356,91 @@ def run(ctx):
             continue
         for ab in ('-', '1'):
             B.add('P %s %s %s' % (hx(txt), ab, 'u,p8,s,p20,p24,u'), 'PS X - - - -', kind='parse-junk', text=txt)
+    nq = 0
     for A in iranges + EXOTIC:
         for ty in ('-', hx('abs'), hx('rel'), hx('ABS'), hx('')):
             for ab in '-01':
                 for s in r.sample(pseqs, 6):
-                    B.add('Q %s %s %s %s %s' % (A[0], A[1], ty, ab, opstr(s)), kind='parse-tuple')
+                    nq += 1
+                    B.add('Q %s %s %s %s %s %s' % (A[0], A[1], ty, ab, opstr(s), ['-', 'l'][nq % 2]), kind='parse-tuple')
+        for ab in '-01':
+            B.add('Q %s N - %s %s 1' % (A[0], ab, opstr(r.choice(pseqs))), kind='parse-tuple')             # (start,)
+            B.add('Q %s %s - %s %s 4l' % (A[0], A[1], ab, opstr(r.choice(pseqs))), kind='parse-tuple')     # 4 items: refused
+            B.add('Q %s %s %s %s %s 4' % (A[0], A[1], hx('abs'), ab, opstr(r.choice(pseqs))), kind='parse-tuple')
 
     for A in iranges + EXOTIC:
         for ab in '-01':
             for s in r.sample(pseqs, 4):
                 B.add('T %s %s %s %s %s %s' % (A + (ab, opstr(s))), kind='parse-object')
+
+    # ---- histories on the SAME objects: intersect both ways (in place / copy) then reuse of the result AND of both operands,
+    #      second pass with different data, copies, make_absolute twice, parse(object); set-up steps also in mid-history
+    hr = [('F8', 'F24', '0', '-'), ('F8', 'F24', '0', '80'), ('N', 'F16', '0', '80'), ('F0', 'N', '0', '-'), ('F0', 'F0', '0', '80'), ('N', 'N', '0', '-'),
+          ('N', 'N', '-', '-'), ('N', 'N', '1', '-'), ('F88', 'F104', '1', '-'), ('F88', 'F104', '1', '80'), ('N', 'F96', '1', '-'), ('T84', 'N', '-', '-'),
+          ('F0', 'F100', '1', '80'), ('F0', 'N', '1', '-'), ('F12', 'N', '0', '-'), ('J8', 'D20', '0', '80'), ('T88', 'T100', '-', '80'), ('N', 'T100', '-', '-'),
+          ('F20', 'F16', '0', '80'), ('F96', 'F90', '1', '-')]
+    passes = [['p80', 'u', 'p88', 's', 'p92', 'p96', 'u', 'p104', 'u'], ['u', 'p80', 'p80', 'p100', 'u', 'p120'], ['p80', 'p84', 'u'], ['u', 's'],
+              ['p88', 'u', 'p100', 'p104', 'u'], ['p72', 'u', 'p88', 'p96', 'u', 'p112']]
+
+    def hist(ranges, steps):
+        return 'H %d %s %s' % (len(ranges), ' '.join(' '.join(x) for x in ranges), ','.join(steps))
+
+    def on(name, toks):
+        return ['m%d.%s' % (name, t) for t in toks]
+    for ia, A in enumerate(hr):
+        for ib, Bq in enumerate(hr):
+            for ip in (0, 1):
+                p1 = passes[(ia + ib) % 3]
+                p2 = passes[3 + (ia + 2 * ib + ip) % 3]
+                # result, then both operands, then a second pass over everything with other data
+                B.add(hist([A, Bq], ['x0.1.2.%d' % ip] + on(2, p1) + on(0, p1) + on(1, p1) + ['m2.r', 'm0.r', 'm1.r'] + on(1, p2) + on(2, p2) + on(0, p2)), kind='history')
+                # operands interleaved with the result, message by message
+                B.add(hist([A, Bq], ['x0.1.2.%d' % ip] + [x for t in p1 for x in ('m2.' + t, 'm1.' + t, 'm0.' + t)]), kind='history')
+        # copies behave like the original; make_absolute twice; parse(object); narrowing an unrestricted range
+        p1 = passes[ia % 3]; p2 = passes[3 + ia % 3]
+        B.add(hist([A], ['c0.1', 'd0.2'] + [x for t in p1 for x in ('m0.' + t, 'm1.' + t, 'm2.' + t)] + ['m1.r'] + on(1, p2) + on(0, ['r']) + on(0, p2)), kind='history')
+        B.add(hist([A], ['a0.80', 'a0.80', 'b0.1.96', 'q0.2.-', 'q0.3.1', 'q0.3.0'] + on(0, p1) + on(1, p1)), kind='history')
+        B.add(hist([A], ['b0.1.80', 'a1.-', 'c1.2'] + on(0, p1) + on(1, p1) + on(2, p1) + ['a0.-', 'a0.80']), kind='history')
+        B.add(hist([('N', 'N', '-', '-'), A], on(0, p2[:3]) + ['x0.1.2.1'] + on(0, p1) + on(1, p1)), kind='history')       # used, then narrowed in place
+        B.add(hist([('N', 'N', '-', '-'), A], ['x0.1.2.1'] + on(2, p1) + ['m0.r'] + on(0, p2) + on(1, p2)), kind='history')
+        B.add(hist([A], on(0, p1[:4]) + ['c0.1', 'd0.2'] + on(0, p1[4:]) + on(1, p1[4:]) + on(2, p1[4:])), kind='history')  # copies in mid-pass
+    for _ in range(60000 if ctx.thorough else 12000):
+        n = r.randint(1, 3)
+        ranges = [r.choice(hr) if r.random() < 0.7 else rand_args(r) for _ in range(n)]
+        ranges = [(a, b, c, d if d != 'x' else '-') for a, b, c, d in ranges]
+        names, cell, steps = list(range(n)), {i: i for i in range(n)}, []
+        tcell = {}
+        free = r.random() < 0.4                       # set-up steps anywhere (outside the theorems: MODEL correspondence only)
+
+        def setup():
+            k = len(names); c = r.random(); i = r.choice(names)
+            if c < 0.45 and len(names) >= 1:
+                j = r.choice(names); ip = r.randint(0, 1)
+                steps.append('x%d.%d.%d.%d' % (i, j, k, ip)); names.append(k); cell[k] = cell[i] if ip else k
+            elif c < 0.6:
+                steps.append('a%d.%s' % (i, r.choice(['-', '80', '80', '96'])))
+            elif c < 0.7:
+                steps.append('b%d.%d.%s' % (i, k, r.choice(['-', '80', '80']))); names.append(k); cell[k] = k
+            elif c < 0.9:
+                steps.append('%s%d.%d' % (r.choice('cd'), i, k)); names.append(k); cell[k] = k
+            else:
+                steps.append('q%d.%d.%s' % (i, k, r.choice('-01'))); names.append(k); cell[k] = cell[i]
+        for _ in range(r.randint(0, 4)):
+            setup()
+        for _ in range(r.randint(3, 24)):
+            x = r.random()
+            if free and x < 0.12:
+                setup(); continue
+            i = r.choice(names); c = cell[i]
+            if x < 0.2:
+                steps.append('m%d.r' % i); tcell[c] = r.choice([72, 80, 80, 88])
+            elif x < 0.5:
+                steps.append('m%d.%s' % (i, r.choice('usnv')))
+            else:
+                tcell[c] = tcell.get(c, r.choice([80, 80, 80, 72, 88])) + r.choice([0, 0, 4, 8, 8, 12, 16])
+                steps.append('m%d.%s%d' % (i, r.choice('ppd'), tcell[c]))
+        # names that a refused (ValueError) step did not create are unknown to all three runners alike: keep only well-formed programs
+        B.add(hist(ranges, steps), kind='history-random')
 
     ctx.log('evaluating %d cases' % len(B.lines))
     impl, mdl, spec = B.evaluate()
@@ -326,10 +455,11 @@ def run(ctx):
         kind = meta['kind']
         ip, _, ist = i.partition('|')
         mp, _, mst = m.partition('|')
+        iv = verd(i)
         ctx.count('case:' + kind)
-        ctx.count('impl:' + ('raises ValueError' if ip == 'E' else 'unexpected exception' if ip.startswith('!') else 'verdicts'))
+        ctx.count('impl:' + ('raises ValueError' if iv == 'E' else 'unexpected exception' if iv.startswith('!') else 'verdicts'))
         w = line.split()
-        nontriv = ip not in ('-', 'E') and ('0' in ip and '1' in ip)
+        nontriv = iv not in ('-', 'E') and ('0' in iv and '1' in iv)
         ctx.case(line, nontrivial=nontriv)
         if meta['spec_line'].startswith('PS X'):
             s = 'X'
@@ -339,9 +469,15 @@ def run(ctx):
             ctx.count('spec:outside-stated-domain (compared IMPL vs MODEL only)')
         if s == 'U' or m == 'U':
             ctx.count('parse:float-text-outside-model (skipped)')
-        if s not in ('X', 'U') and ip != s:
-            sig = signature(line, ip, s)
-            key = repr(sorted(sig.items()))
+        bad = s not in ('X', 'U') and iv != s
+        sig = signature(line, iv, s) if bad else None
+        if not bad and s not in ('X', 'U', 'E') and w[0] != 'H' and ';' in ip and set(s) <= {'0', '1', '-'}:
+            # in_range_started() must say whether a message of the current pass has been accepted
+            want = started_expected(w[ops_field(line)], s)
+            if ip.split(';')[1][1:2] != want:
+                bad, sig = True, {'op': 'in_range_started', 'impl': ip.split(';')[1][1:2], 'cmd': w[0]}
+        if bad:
+            key = repr(sorted(sig.items(), key=lambda kv: kv[0]))
             n = len(w[ops_field(line)].split(','))
             if key not in viol or n < viol[key][0]:
                 viol[key] = (n, line, meta['spec_line'] if meta['spec_line'] != line else None, sig, kind)
@@ -349,31 +485,33 @@ def run(ctx):
         if m == 'U':
             continue
         if ip != mp:
-            ctx.broken_correspondence('model and implementation give different verdicts on: %s' % line,
-                                      {'line': line, 'impl': i, 'model': m, 'spec': s})
+            ctx.broken_correspondence('model and implementation give different verdicts / is_specified() / in_range_started() on: %s' % line,
+                                      {'line': line, 'python': explain(line), 'impl': i, 'model': m, 'spec': s})
             continue
         ncorr += 1
         # advisory: private state, attribute by attribute, only where the attribute exists
         if ist and mst and ist != mst:
             skip_t0 = w[0] == 'R' and 't' in w[6]       # return_timestamps=True also sets p1_t0 on unspecified ranges
-            for name, a, b in zip(state_names, ist.split(' '), mst.split(' ')):
-                if a == 'NA':
-                    missing.add(name)
-                elif a != b and not (name == 'p1_t0' and skip_t0):
-                    ctx.broken_correspondence('private attribute %s is %s in the implementation, %s in the model, after: %s' % (name, a, b, line),
-                                              {'line': line, 'impl': i, 'model': m, 'spec': s})
+            for io, mo in zip(ist.split('/'), mst.split('/')):
+                for name, a, b in zip(state_names, io.split(' '), mo.split(' ')):
+                    if a == 'NA':
+                        missing.add(name)
+                    elif a != b and not (name == 'p1_t0' and skip_t0):
+                        ctx.broken_correspondence('private attribute %s is %s in the implementation, %s in the model, after: %s' % (name, a, b, line),
+                                                  {'line': line, 'python': explain(line), 'impl': i, 'model': m, 'spec': s})
     for name in sorted(missing):
         ctx.notes.append('private attribute %s no longer exists; its comparison was skipped' % name)
     ctx.count('correspondence: identical public verdicts', ncorr)
 
     for key, (n, line, sl, sig, kind) in sorted(viol.items()):
-        if kind not in ('exh', 'exotic', 'corpus') and n > 2:
+        if kind not in ('exh', 'exotic', 'corpus') and n > 2 and sig.get('op') != 'in_range_started':
             line, sl = shrink(model, line, sl, sig)
         i, m, lg, s = eval3(model, line, sl)
         case = {'line': line, 'python': explain(line), 'spec_line': sl, 'impl': i, 'model': m, 'model_before_repairs': lg, 'spec': s, 'found_in': kind}
         ctx.violation(sig, 'TimeRange: implementation gives %s, the documented interval semantics give %s, on: %s   [%s]' % (i.split('|')[0], s, line, explain(line)), case)
 
-    samples = [x for x in zip(B.lines, impl) if x[1].split('|')[0] not in ('-', 'E')]
+
+    samples = [x for x in zip(B.lines, impl) if verd(x[1]) not in ('-', 'E')]
     for x in samples[::max(1, len(samples) // 6)][:6]:
         ctx.sample({'line': x[0], 'impl': x[1]})
     ctx.coverage['rule'] = (
@@ -400,6 +538,8 @@ def _py_bound(tok):
     if tok == 'N':
         return 'None'
     v = {'i': 'inf', 'n': '-inf', 'x': 'nan'}.get(tok[1:]) or repr(int(tok[1:]) / 8.0)
+    if tok[0] in 'JDEK':
+        return {'J': 'int(%s)', 'D': 'numpy.float64(%s)', 'E': 'numpy.float32(%s)', 'K': 'numpy.int64(%s)'}[tok[0]] % v
     return ('Timestamp(%s)' % v) if tok[0] == 'T' else ("float('%s')" % v if v in ('inf', '-inf', 'nan') else v)
 
 
@@ -421,6 +561,24 @@ def explain(line):
     w = line.split(); c = w[0]
     if c == 'R':
         return '%s; is_in_range(%s) on: %s' % (_py_range(w[1:5]), 'return_timestamps=True' if 't' in w[6] else '', _py_ops(w[5]))
+    if c == 'H':
+        n = int(w[1])
+        out = ['r%d = %s' % (i, _py_range(w[2 + 4 * i:6 + 4 * i])) for i in range(n)]
+        for st in w[2 + 4 * n].split(','):
+            f = st[1:].split('.')
+            if st[0] == 'm':
+                out.append('r%s: %s' % (f[0], _py_ops(st[1:].partition('.')[2])))
+            elif st[0] == 'x':
+                out.append('r%s = r%s.intersect(r%s%s)' % (f[2], f[0], f[1], '' if f[3] == '1' else ', in_place=False'))
+            elif st[0] == 'a':
+                out.append('r%s.make_absolute(%s)' % (f[0], 'None' if f[1] == '-' else 'Timestamp(%r)' % (int(f[1]) / 8.0)))
+            elif st[0] == 'b':
+                out.append('r%s = r%s.make_absolute(%s, in_place=False)' % (f[1], f[0], 'None' if f[2] == '-' else 'Timestamp(%r)' % (int(f[2]) / 8.0)))
+            elif st[0] in 'cd':
+                out.append('r%s = copy.%s(r%s)' % (f[1], 'copy' if st[0] == 'c' else 'deepcopy', f[0]))
+            elif st[0] == 'q':
+                out.append('r%s = TimeRange.parse(r%s, absolute=%s)' % (f[1], f[0], {'-': 'None', '0': 'False', '1': 'True'}[f[2]]))
+        return '; '.join(out)
     if c == 'I':
         return 'A = %s; B = %s; R = A.intersect(B%s); is_in_range on: %s' % (_py_range(w[1:5]), _py_range(w[5:9]), '' if w[9] == '1' else ', in_place=False', _py_ops(w[10]))
     if c == 'A':
@@ -446,6 +604,7 @@ def replay(ctx, rec):
     i, m, lg, s = eval3(model, case['line'], case.get('spec_line'))
     print('CASE ', case['line'])
     print('      ', explain(case['line']))
-    print('       (verdict string: one 0/1 per message; E = ValueError; after | the private state started ended t0 start end absolute, times in 1/8 s)')
+    print('       (verdicts: one 0/1 per message; E = ValueError; ";" is_specified() in_range_started(); after | the private state started ended t0 start end absolute, times in 1/8 s;')
+    print('        histories: one result per step, "." = done, flags s = result is the object itself, o = is the other operand, M = an operand that must not change did)')
     print('IMPL ', i); print('MODEL', m); print('MODEL(before repairs)', lg); print('SPEC ', s)
     return 0
